@@ -118,8 +118,10 @@ class _State:
         # make durations tunable
         if self.duration is not None:
             duration_attr = name + "_duration"
-            # don't create it twice (in case of inheritance overriding)
-            if getattr(owner, duration_attr, None) is None:
+            # a redefinition in a subclass gets its own tunable, defaulting to
+            # its own decorator argument (an inherited one belongs to the state
+            # it overrides)
+            if duration_attr not in owner.__dict__:
                 setattr(
                     owner,
                     duration_attr,
@@ -139,6 +141,7 @@ class _StateData:
         self.ran = False
         self.run = wrapper.run
         self.must_finish = wrapper.must_finish
+        self.timed = wrapper.duration is not None
 
         if hasattr(wrapper, "next_state"):
             self.next_state = wrapper.next_state
@@ -639,8 +642,12 @@ class StateMachine:
             if initial_call:
                 state.ran = True
                 state.start_time = new_state_start
-                state.expires = new_state_start + getattr(
-                    self, state.duration_attr, 0xFFFFFFFF
+                # only a timed state has a duration (an untimed state overriding
+                # a timed one must not pick up the inherited tunable)
+                state.expires = new_state_start + (
+                    getattr(self, state.duration_attr, 0xFFFFFFFF)
+                    if state.timed
+                    else 0xFFFFFFFF
                 )
 
                 if self.VERBOSE_LOGGING:
